@@ -31,7 +31,9 @@ VARIANTS = [("stop_keeps_sub", "nestq", "EnterExitBalanced"),          # as foun
             ("exit_twice", "flat2q", "OncePerTransition"),
             ("no_reent_guard", "reent_enter", "ReentrantCallsRejected"),
             ("guard_released_early", "reent_enter", "ReentrantCallsRejected"),  # nested machine activated outside the guard
-            ("route_bound_early", "nestq", "DefinedActionsRun")]                # route to 0 bypasses the user's terminal state
+            ("route_bound_early", "nestq", "DefinedActionsRun"),
+            ("handler_first_wins", "dupq", "HandlerBeforeRoutes"),              # a second addEvent() for the same event is dropped
+            ("terminated_ignores_events", "term0q", "SubMachineFirstUntilTerminated")]  # run() returns early in a user-defined state 0                # route to 0 bypasses the user's terminal state
 
 
 def par_mc(ctx, jobs):
@@ -75,7 +77,7 @@ def par_mc(ctx, jobs):
 
 def model_check(ctx):
     n = vlib.NCPU
-    fams = ["flat2q", "nestq", "reent_enter"] if ctx.quick() else ["flat3", "nest", "reent"]
+    fams = ["flat2q", "nestq", "reent_enter", "dupq", "term0q"] if ctx.quick() else ["flat3", "nest", "reent", "dup", "term0"]
     jobs = []
     for fam in fams:
         jobs.append({"label": "MC_Hfsm/%s (reference semantics, all clauses)" % fam, "expect": "ok",
@@ -123,8 +125,8 @@ def gen_program(rnd):
         ids = [s["id"] for s in M["ss"] if s["id"] != 0]
         targets = ids * 2 + [0, 0] if m > 1 else ids * 4 + [0]
         for s in M["ss"]:
-            if s["id"] == 0:
-                continue
+            if s["id"] == 0 and rnd.random() < 0.5:
+                continue          # a plain terminal state; otherwise state 0 is an ordinary state with handlers and ways out
             for _ in range(rnd.choice([0, 1, 1, 2, 2, 2, 3, 3, 4])):
                 r = {"ev": 0 if rnd.random() < 0.25 else rnd.randint(1, ne), "to": rnd.choice(targets), "g": 0, "a": 0}
                 if rnd.random() < 0.4:
@@ -141,6 +143,9 @@ def gen_program(rnd):
                 evs.append(rnd.choice([e for e in range(1, ne + 1) if e not in evs]))
             if rnd.random() < 0.2:
                 evs.append(0)
+            if evs and rnd.random() < 0.35:
+                evs.append(rnd.choice(evs))     # registered again for the same event: the later handler replaces the earlier
+                rnd.shuffle(evs)
             for e in evs:
                 hs.append([(-1 if rnd.random() < 0.55 else rnd.choice(targets)) for _ in range(rnd.randint(1, 3))])
                 s["hd"].append({"ev": e, "h": len(hs)})
@@ -201,8 +206,10 @@ def definition_order(rnd, p):
                     d.add(("S", m, sidx[R["to"]], 0))
                 prev = ("R", m, si, j)
                 deps[prev] = d
-            for j, _ in enumerate(S["hd"], 1):
-                deps[("H", m, si, j)] = {s_op}
+            prev = None
+            for j, _ in enumerate(S["hd"], 1):                # handlers of one state in registration order (a later one
+                deps[("H", m, si, j)] = {s_op} | ({prev} if prev else set())   # for the same event replaces the earlier)
+                prev = ("H", m, si, j)
             if S["sub"]:
                 deps[("U", m, si, 0)] = {s_op}
     style = rnd.random()
@@ -282,6 +289,13 @@ def coverage_guard(ctx, traces):
                 if line.startswith('{"e":"Prog"'):
                     pr = json.loads(line)["p"]
                     seen_term = set()
+                    replacing, rich0, prevq = set(), set(), None
+                    for mi, M in enumerate(pr["ms"], 1):
+                        for S in M["ss"]:
+                            evs = [h["ev"] for h in S["hd"]]
+                            replacing.update(h["h"] for i, h in enumerate(S["hd"]) if h["ev"] in evs[:i])
+                            if S["id"] == 0 and (S["rs"] or S["hd"]):
+                                rich0.add(mi)
                     for d in pr.get("defs", []):
                         if d[0] == "S" and pr["ms"][d[1] - 1]["ss"][d[2] - 1]["id"] == 0:
                             seen_term.add(d[1])
@@ -298,6 +312,12 @@ def coverage_guard(ctx, traces):
                     add("Stop_with_active_nested_machine")
                 for t in e["out"]:
                     add("cb_" + t[0])
+                    if t[0] == "H" and t[2] in replacing:
+                        add("handler_registered_twice_later_one_ran")
+                    if t[0] in "GH" and t[1] in rich0 and prevq and prevq[t[1] - 1][0] == 1 and prevq[t[1] - 1][2] == 0:
+                        add("handler_or_guard_in_user_state_0")
+                    if t[0] == "C" and t[1] in rich0 and t[2] == 0:
+                        add("route_out_of_user_state_0")
                     if t[0] == "C" and t[4] == 0 and t[1] > 1:
                         add("nested_machine_terminated")
                     if t[0] == "E" and t[2] == 0:
@@ -308,9 +328,11 @@ def coverage_guard(ctx, traces):
                             add("reentrant_call_on_ancestor_rejected")
                 if sum(q[0] for q in e["q"]) >= 3:
                     add("three_levels_active")
+                prevq = e["q"]
     need = list(names.values()) + ["cb_" + k for k in "GHXAECR"] + ["nested_machine_terminated", "three_levels_active",
             "Stop_with_active_nested_machine", "reentrant_call_on_ancestor_rejected", "user_terminal_state_entered",
-            "route_to_terminal_registered_before_user_terminal_state"] + ["reentrant_%s_rejected" % n.lower() for n in names.values()]
+            "route_to_terminal_registered_before_user_terminal_state", "handler_registered_twice_later_one_ran",
+            "handler_or_guard_in_user_state_0", "route_out_of_user_state_0"] + ["reentrant_%s_rejected" % n.lower() for n in names.values()]
     missing = [k for k in need if cnt.get(k, 0) == 0]
     if missing:
         raise vlib.Infra("vacuity guard: never exercised in the validated traces: " + ", ".join(missing))
@@ -383,7 +405,11 @@ def binding(ctx, exe):
                 "program": small[0]["p"]})
     validate(ctx, exe, small, "gen_small", "TLC-enumerated programs/call sequences", replays=True)
     sim = gen_walks(ctx, "Gen_sim.cfg", 120 if ctx.quick() else 1600, 30)[:600 if ctx.quick() else 8000]   # about 5 walks per num
-    validate(ctx, exe, sim, "gen_sim", "TLC-simulated long call sequences (family nest)", replays=True)
+    validate(ctx, exe, sim, "gen_sim", "TLC-simulated long call sequences (family simmix: nested, state 0 with routes, "
+             "handlers registered twice)", replays=True)
+    if not ctx.quick():
+        big = gen_walks(ctx, "Gen_nest.cfg", 1600, 30)[:8000]
+        validate(ctx, exe, big, "gen_nest", "TLC-simulated long call sequences (family nest)", replays=True)
     ren = gen_walks(ctx, "Gen_reent.cfg", 60 if ctx.quick() else 600, 14)[:300 if ctx.quick() else 3000]
     validate(ctx, exe, ren, "gen_reent", "TLC-simulated call sequences with re-entrant attempts (family reent)", replays=True)
     # 3. code -> spec: seeded random programs, deeper and larger than the families
@@ -396,7 +422,7 @@ def binding(ctx, exe):
     if ok:
         first = [json.loads(x) for x in vlib.read_lines(tr, 1, 5)]
         ctx.sample({"kind": "recorded trace of a random program (first lines)", "events": first})
-        coverage_guard(ctx, [tr, ctx.tmp("gen_reent.ndjson")])
+        coverage_guard(ctx, [tr, ctx.tmp("gen_reent.ndjson"), ctx.tmp("gen_sim.ndjson")])
     ctx.assumptions = [
         "calls are made on the root machine from outside; from inside a callback on the callback's own machine, and on an "
         "ancestor only while that ancestor is inside its own run() activating the nested machine (calls on a parent that merely "
